@@ -30,6 +30,7 @@ import (
 	rpc "github.com/libp2p/go-libp2p-gorpc"
 	dual "github.com/libp2p/go-libp2p-kad-dht/dual"
 	pubsub "github.com/libp2p/go-libp2p-pubsub"
+	ma "github.com/multiformats/go-multiaddr"
 
 	"verif/harness/lib/clus"
 	"verif/harness/lib/ev"
@@ -578,4 +579,126 @@ func TestUntrustedPublisherDuringStartup(t *testing.T) {
 			}
 		})
 	}
+}
+
+// TestTrustListFromAddresses: "the listed peers" of a CRDT trust list are
+// derived by the daemon (init --peers, daemon --bootstrap) from the addresses
+// the operator lists, through ipfscluster.PeersFromMultiaddrs. For every
+// subset (<= 3) of an alphabet of address shapes - plain ip4/dns4/ip6, two
+// addresses of one peer, a relayed (circuit) address naming relay and target,
+// an address naming no peer - the derived list is exactly the peers the
+// addresses are addresses OF, and a replica configured with it trusts those
+// and nobody else (in particular not a relay on the way).
+func TestTrustListFromAddresses(t *testing.T) {
+	sec := R.Sec("trust-list-from-listed-addresses")
+	P := func(i int) peer.ID { return clus.PID(60 + i) }
+	type shape struct {
+		name   string
+		addr   string
+		target int // -1: names no peer
+		others []int
+	}
+	relay := 9
+	shapes := []shape{
+		{"ip4", "/ip4/10.0.0.1/tcp/9096/p2p/" + peer.Encode(P(1)), 1, nil},
+		{"dns4", "/dns4/cluster.example.org/tcp/9096/p2p/" + peer.Encode(P(2)), 2, nil},
+		{"ip6", "/ip6/fd00::3/tcp/9096/p2p/" + peer.Encode(P(3)), 3, nil},
+		{"second-address-of-1", "/ip4/192.168.1.1/tcp/9097/p2p/" + peer.Encode(P(1)), 1, nil},
+		{"circuit-via-relay", "/ip4/10.0.0.9/tcp/4001/p2p/" + peer.Encode(P(relay)) + "/p2p-circuit/p2p/" + peer.Encode(P(4)), 4, []int{relay}},
+		{"circuit-via-relay-to-2", "/dns4/relay.example.org/tcp/4001/p2p/" + peer.Encode(P(relay)) + "/p2p-circuit/p2p/" + peer.Encode(P(2)), 2, []int{relay}},
+		{"no-peer", "/ip4/10.0.0.7/tcp/9096", -1, nil},
+	}
+	n := 0
+	var rec func(start int, cur []int)
+	run := func(cur []int) {
+		var addrs []ma.Multiaddr
+		want := map[peer.ID]bool{}
+		notWanted := map[peer.ID]bool{}
+		var names []string
+		for _, i := range cur {
+			a, err := ma.NewMultiaddr(shapes[i].addr)
+			if err != nil {
+				t.Fatalf("harness: %s: %v", shapes[i].addr, err)
+			}
+			addrs = append(addrs, a)
+			names = append(names, shapes[i].name)
+			if shapes[i].target >= 0 {
+				want[P(shapes[i].target)] = true
+			}
+			for _, o := range shapes[i].others {
+				notWanted[P(o)] = true
+			}
+		}
+		for p := range want {
+			delete(notWanted, p)
+		}
+		got := ipfscluster.PeersFromMultiaddrs(addrs)
+		gm := map[peer.ID]bool{}
+		dup := false
+		for _, g := range got {
+			if gm[g] {
+				dup = true
+			}
+			gm[g] = true
+		}
+		ok := !dup && len(gm) == len(want)
+		for p := range want {
+			if !gm[p] {
+				ok = false
+			}
+		}
+		// a replica configured with the derived list
+		trustedWrong := ""
+		clus.Bubble(t, func(t *testing.T) {
+			ctx := context.Background()
+			_, hosts := clus.NewMocknetUnconnected(ctx, 0, 1)
+			defer hosts[0].Close()
+			rep, err := clus.NewCRDTPeer(ctx, hosts[0], clus.NewFaultStore(), false, func(c *crdt.Config) {
+				c.TrustAll = false
+				c.TrustedPeers = got
+			})
+			if err != nil {
+				t.Fatal(err)
+			}
+			defer rep.Stop()
+			<-rep.Cons.Ready(ctx)
+			for p := range want {
+				if !rep.Cons.IsTrustedPeer(ctx, p) {
+					trustedWrong = "listed peer " + p.String() + " is not trusted"
+				}
+			}
+			for p := range notWanted {
+				if rep.Cons.IsTrustedPeer(ctx, p) {
+					trustedWrong = "peer " + p.String() + " (a relay on the way, never listed as a peer) is trusted"
+				}
+			}
+		})
+		n++
+		R.Eval(sec, fmt.Sprintf("%s|derived-ok=%v|trust=%s", strings.Join(names, "+"), ok, trustedWrong), true)
+		if !ok || trustedWrong != "" {
+			var gs, ws []string
+			for _, g := range got {
+				gs = append(gs, g.String())
+			}
+			for p := range want {
+				ws = append(ws, p.String())
+			}
+			sort.Strings(ws)
+			R.Violation("C07|trust-list-from-addresses|"+strings.Join(names, "+"), map[string]interface{}{
+				"listed_addresses": names, "derived_trust_list": gs, "peers_the_addresses_belong_to": ws, "trust_problem": trustedWrong})
+		}
+	}
+	rec = func(start int, cur []int) {
+		if len(cur) > 0 {
+			run(cur)
+		}
+		if len(cur) == 3 {
+			return
+		}
+		for i := start; i < len(shapes); i++ {
+			rec(i+1, append(append([]int{}, cur...), i))
+		}
+	}
+	rec(0, nil)
+	sec.Bounds["address_sets"] = fmt.Sprintf("%d: every subset of 1..3 of %d address shapes", n, len(shapes))
 }
